@@ -226,7 +226,7 @@ def evaluate(ctx, pairs, with_model=True, ncorpus=0):
                 spec_lines += ["mem %s %s" % (key, case["B"]), "mem %s %s" % (key, case["A"])]
                 spec_ref += [inB, inA]
                 if inB and not inA:
-                    cls = next((c for c in classes if c != "annotatedNever"), None)
+                    cls = next(iter(classes), None)
                     ctx.candidate(dict(case, object=repr(py), obj=o),
                                   "A accepts B, the object belongs to B but not to A", cls=cls, conforms=conforms, stream="soundness")
                     break
@@ -257,9 +257,8 @@ def laws(ctx, checker, A, B, case, classes, conforms):
     if A[0] == "union" and A[1]:
         for a in A[1]:
             if accepts(checker, a, B) == "1" and accepts(checker, A, B) != "1":
-                cls = "annotatedNever" if "annotatedNever" in classes else None
                 ctx.candidate(dict(case, law="union-left", member=V.ty_sexp(a)), "a member of the union accepts B but the union does not",
-                              cls=cls, conforms=conforms, stream="law-union-left")
+                              cls=None, conforms=conforms, stream="law-union-left")
                 break
     ANY = ("any",)
     if accepts(checker, ANY, B) != "1" or accepts(checker, A, ANY) != "1":
